@@ -169,7 +169,7 @@ def p_c04(facts, rep, tier):
     n10 = syncorder.o10(ctx, rep)
     n11 = syncorder.o11(ctx, rep)
     rep.floor("O2 pre-meta writes", n2, 8)
-    rep.floor("O5/O6 ht writes before truncate_wal", n56, 3)
+    rep.floor("O5/O6 truncate_wal barriers examined", n56, 3)
     rep.floor("O9 rollback append obligations", n9, 6)
     rep.floor("O11 create obligations", n11, 8)
     _sync_common(rep, ctx)
